@@ -28,7 +28,18 @@ def check_case(ctx, case):
     cls = asm.cls_by_name(case["cls"])
     wd = case["word"]
     n = len(wd)
+    prior = None
+    if case.get("prior") and n > 1:
+        # the same plasmid opened at another origin was typed with the same class just before, and that wrapper is
+        # still referenced
+        prior = cls(impl.mk_record(impl.CRec(0, gen.rot(wd, 1 + case["prior"] % (n - 1)), [], [])))
+        try:
+            prior.is_valid() and prior.target_sequence()
+        except Exception:  # noqa
+            pass
+        ctx.note("prior-wrapper-alive")
     res = T.evaluate(cls, wd)
+    del prior
     ctx.note("verdict:" + res[0])
     ctx.case(case, nontrivial=res[0] == "valid", key=[case["cls"], wd])
     ctx.op(("EVAL", cls, wd, []), case)
@@ -185,7 +196,10 @@ def run(ctx):
                 wd = wd + gen.instantiate(rng, other.structure(), runlen=2)[0]
             elif r < 0.3:
                 wd = gen.recase(rng, wd)
-            ctx.guard(check_case, {"cls": name, "word": gen.rot(wd, rng.randrange(len(wd)))})
+            c_ = {"cls": name, "word": gen.rot(wd, rng.randrange(len(wd)))}
+            if j % 5 == 2:
+                c_["prior"] = rng.randrange(1, 1 << 20)
+            ctx.guard(check_case, c_)
     # a third site of the class's own cutter inside the wildcard run, in every spelling
     for cls in kits:
         for _ in range(ctx.budget(3, 100)):
